@@ -40,6 +40,14 @@ def dictD : Desc := { insts := #[
   .struct { tag := 0x1, nparams := 0, fields := [ fld "k" 0, fld "v" 0 ] },
   .dict { isTuple := false, dynamic := false, count := 0, nparams := 0, elem := fld "" 1, hasTL2 := false } ] }
 
+/-- `dictD` plus the TL2 `bit` instance and a struct `holder x:int` (index 3) that reaches neither -/
+def mixedD : Desc := { insts := #[
+  .prim .i32,
+  .struct { tag := 0x1, nparams := 0, fields := [ fld "k" 0, fld "v" 0 ] },
+  .dict { isTuple := false, dynamic := false, count := 0, nparams := 0, elem := fld "" 1, hasTL2 := false },
+  .struct { tag := 0x4, nparams := 0, fields := [ fld "x" 0 ] },
+  .prim .bit ] }
+
 /-- a lone TL2 `bit` -/
 def bitD : Desc := { insts := #[ .prim .bit ] }
 
@@ -64,5 +72,34 @@ def unionD : Desc := { insts := #[
   .struct { tag := 0xa, nparams := 0, fields := [], isUnionElement := true, unionIndex := 0 },
   .struct { tag := 0xb, nparams := 0, fields := [], isUnionElement := true, unionIndex := 1 },
   .union { variants := [(1, "a"), (2, "b")], elemNatArgs := [], nparams := 0, isEnum := true, isMaybe := false, hasTL2 := false } ] }
+
+/-- `loop x:%loop = Loop`: a bare self-reference, no input is ever consumed (lead L8: Go recurses forever) -/
+def loopD : Desc := { insts := #[ .struct { tag := 0x5, nparams := 0, fields := [ fld "x" 0 ] } ] }
+
+/-- `nil | cons x:w3`, `w3 x:w4`, … `w6 x:List`: four bare wrappers between two tags, so each 4 input bytes cost
+6 levels of recursion: 0 union, 1 nil, 2 cons, 3–6 wrappers -/
+def chainD : Desc := { insts := #[
+  .union { variants := [(1, "nil"), (2, "cons")], elemNatArgs := [], nparams := 0, isEnum := false, isMaybe := false, hasTL2 := false },
+  .struct { tag := 0x10, nparams := 0, fields := [], isUnionElement := true, unionIndex := 0 },
+  .struct { tag := 0x11, nparams := 0, fields := [ fld "x" 3 ], isUnionElement := true, unionIndex := 1 },
+  .struct { tag := 0x13, nparams := 0, fields := [ fld "x" 4 ] },
+  .struct { tag := 0x14, nparams := 0, fields := [ fld "x" 5 ] },
+  .struct { tag := 0x15, nparams := 0, fields := [ fld "x" 6 ] },
+  .struct { tag := 0x16, nparams := 0, fields := [ fld "x" 0 (bare := false) ] } ] }
+
+/-- six `cons` tags and a `nil` tag: 28 bytes -/
+def chainBytes : TLVerif.Prim.Bytes :=
+  [0x11,0,0,0, 0x11,0,0,0, 0x11,0,0,0, 0x11,0,0,0, 0x11,0,0,0, 0x11,0,0,0, 0x10,0,0,0]
+
+/-- Peano numbers `zero | succ prev:Nat` (boxed recursive reference): 0 zero, 1 succ, 2 union -/
+def peanoD : Desc := { insts := #[
+  .struct { tag := 0x20, nparams := 0, fields := [], isUnionElement := true, unionIndex := 0 },
+  .struct { tag := 0x21, nparams := 0, fields := [ fld "prev" 2 (bare := false) ], isUnionElement := true, unionIndex := 1 },
+  .union { variants := [(0, "zero"), (1, "succ")], elemNatArgs := [], nparams := 0, isEnum := false, isMaybe := false, hasTL2 := false } ] }
+
+/-- `myNat fields_mask:# a:fields_mask.0?%myNat` (from goldmaster.tl): bare recursion behind the mask word -/
+def maskRecD : Desc := { insts := #[
+  .prim .u32,
+  .struct { tag := 0xc60c1b41, nparams := 0, fields := [ fld "fields_mask" 0, fld "a" 1 (mask := some (.field 0, 0)) ] } ] }
 
 end TLVerif.Codec.Ex
